@@ -5,6 +5,9 @@
 //! specifications in /verif/spec (see DESIGN.md §3.2).
 #![allow(clippy::all)]
 
+pub mod catalog;
+pub mod drawables;
+pub mod fonts_table;
 pub mod rec;
 pub mod rng;
 pub mod shapes;
